@@ -3,6 +3,7 @@ import Frugal.Proofs.RoundTrip
 import Frugal.Proofs.NormFacts
 import Frugal.Proofs.ClearNocopy2
 import Frugal.Proofs.RoundTripHolder
+import Frugal.Proofs.ReadNormH
 import Frugal.Props.Inst.Params
 import Frugal.Props.Inst.F_valid_depth
 import Frugal.Props.Inst.F_skeleton_decoder
@@ -79,6 +80,43 @@ theorem roundtrip_with_top_holder (S : Schema) (hS : S.ok = true) (hside : S.rtS
     (by rw [hsk]; exact hunk) ht hdest hn hf hr
   have : Generated.params.maxDepth = 1023 := rfl
   omega
+
+/-- **C01 with retained unknown fields at every nesting level.**  `v = .st xs h` may carry holder bytes
+    in any struct it contains (inside pointers, list / set elements, map keys and values): each is the
+    serialisation of well-formed fields (`fitH`) that the struct holding them does not recognise and
+    the skipper can skip (`unkOK`: what a decode leaves there, C11).  Encode, then decode into any
+    destination of the type: success, exactly the encoded length, and `normTopH v dest` — the normal
+    form of `roundtrip` in which, in addition, every struct that carried retained bytes (and whose type
+    declares the holder) has them back **byte for byte**, and one that carried none has what its
+    destination had. -/
+theorem roundtrip_with_nested_holders (S : Schema) (hS : S.ok = true) (hside : S.rtSide) (sid : Nat)
+    (xs ds : List Val) (h h' : Bytes)
+    (ht : hasTy S (.strct sid) (.st xs h) = true) (hdest : hasTy S (.strct sid) (.st ds h') = true)
+    (hfit : fitH (.st xs h) = true) (hu : unkOK Generated.params S (.strct sid) (.st xs h) = true)
+    (hr : rtOK S (.strct sid) (.st xs h) = true)
+    (hd : depth (toWireH S (.strct sid) (.st xs h)) ≤ 511) :
+    decodeM Generated.params S sid (appendM Generated.params S sid (.st xs h)) (.st ds h') =
+      .ok (normTopH S sid (.st xs h) (.st ds h'),
+           (appendM Generated.params S sid (.st xs h)).length) := by
+  apply roundtrip_holders Instances.params_valid S hS hside sid xs ds h h' ht hdest hfit hu hr
+  have : Generated.params.maxDepth = 1023 := rfl
+  omega
+
+/-- not vacuous: `Outer{1: *Inner, holder}`, `Inner{1: i32, holder}`, a value carrying an unknown string
+    field 8 at the top and an unknown i32 field 9 in the nested struct meets every hypothesis, and its
+    normal form over an empty destination is the value itself, both holders included -/
+def exSH : Schema :=
+  [ { fields := [{ id := 1, req := .optional, ty := .ptr (.strct 1) }], hasHolder := true },
+    { fields := [{ id := 1, req := .dflt, ty := .base .i32 }], hasHolder := true } ]
+def exVH : Val := .st [.ptr (.st [.sc 5] (serFields [(9, .i32 7)]))] (serFields [(8, .str [1, 2])])
+example : exSH.ok = true ∧ hasTy exSH (.strct 0) exVH = true ∧ hasTy exSH (.strct 0) (.st [.nilp] []) = true ∧
+    fitH exVH = true ∧ unkOK Generated.params exSH (.strct 0) exVH = true ∧ rtOK exSH (.strct 0) exVH = true ∧
+    depth (toWireH exSH (.strct 0) exVH) ≤ 511 := by decide
+example : normTopH exSH 0 exVH (.st [.nilp] []) = exVH := by rfl
+
+/-- on values without holder bytes this is `roundtrip`'s normal form -/
+theorem nested_holder_normal_form_extends (S : Schema) (t : Ty) (v d : Val) (hn : noHolder v = true) :
+    normH S t v d = norm S t v d := normH_of_noHolder S v t d hn
 
 /-- the same for the schema the resolver builds from any universe of Go declarations: what it
     accepts is well-formed and has distinct ids (proved), the remaining side conditions are Go's
